@@ -193,9 +193,9 @@ func TestVerifC11bPipeline(t *testing.T) {
 	defer vfDumpDiscovered(t)
 	rapid.Check(t, func(rt *rapid.T) {
 		g := vfNewG(rt, env.pools)
-		// one case in four comes from the resilience sub-domain (see c11b_resilience_test.go): there the
+		// about one case in seven comes from the resilience sub-domain (see c11b_resilience_test.go): there the
 		// answer depends on the retry / circuit-breaker wrappers but not on time
-		resil := vfChance(rt, "resilience-scenario", 25)
+		resil := vfChance(rt, "resilience-scenario", 15)
 		var body0, body1 map[string]interface{}
 		var info0, info1 vfPipeInfo
 		var changes []string
